@@ -1,9 +1,91 @@
 (* C17 — WAL records are enumerated with their stored header, position and names.
-   Property theorems only; proofs live in C17/*Proofs.v. *)
+   Property theorems only; proofs live in C17/*Proofs.v.
+   Spec = C17/Spec.v (PostgreSQL's page / record layout as a reference writer) and C17/SpecNames.v
+   (rmgrlist.h and the *_identify tables).  Model = C17/Model.v + C17/Names.v (wal.go after the fix
+   commit of branch verif-C17).  Fuel: [Ok None] is "out of fuel"; every theorem below shows it does
+   not occur. *)
 Require Import PG.Base.Bytes PG.Base.GoSlice.
-Require Import PG.C17.Names PG.C17.Model PG.C17.SpecNames PG.C17.Spec PG.C17.NamesProofs.
+Require Import PG.C17.Names PG.C17.Model PG.C17.SpecNames PG.C17.Spec.
+Require Import PG.C17.NamesProofs PG.C17.BlockrefsProofs PG.C17.PageProofs PG.C17.SegmentProofs PG.C17.RefuteProofs.
 
-(* Names, exhaustively over all 256 resource-manager ids and all 65 536 (rmid, info) pairs (vm_compute):
+(* ------------------------------------------------------------------ pages *)
+(* Every well-formed WAL page (long or short header, any page address / timeline / info bits, with or
+   without a continuation of any length - also one that covers the whole page -, any number of 8-aligned
+   records of 24..16000 bytes with any body, the last one possibly running past the page end, zero fill
+   behind them; whatever follows the slice in memory): every record whose 24-byte header lies on the
+   page is reported exactly once, in order, with its stored tot_len, xid, prev, info, rmid, crc and
+   LSN = xlp_pageaddr + offset in page; the two names are rmgrName / operationName of the stored ids. *)
+Theorem C17_page : forall p t base,
+  wf_page p ->
+  exists recs, parseWALPage {| vis := enc_page p; tail := t |} base = Ok (Some (PRecs recs)) /\
+               map header_of recs = map header_of (expected_page p) /\
+               Forall (fun r => r_rmname r = rmgrName (r_rmid r) /\ r_op r = operationName (r_rmid r) (r_info r)) recs.
+Proof.
+  intros p t base H. exists (page_model p). split; [apply parseWALPage_enc; exact H|]. split.
+  - apply page_headers_from.
+  - unfold page_model. generalize (first_start p). induction (p_recs p) as [|r rs IH]; intros st; cbn [model_from]; constructor.
+    + apply names_of_model. + apply IH.
+Qed.
+Print Assumptions C17_page.
+
+(* The full observable record - header, position, PostgreSQL's names (where PostgreSQL assigns one),
+   referenced relations and blocks - outside the known-finding classes D53 (records registering blocks)
+   and D54 (names): FULL STATEMENT = the same without the hypothesis [Forall rec_clean]; it is refuted by
+   C17_blockrefs_refuted and C17_names_refuted. *)
+Theorem C17_page_full_partial : forall p t base,
+  wf_page p -> Forall rec_clean (p_recs p) ->
+  exists recs, parseWALPage {| vis := enc_page p; tail := t |} base = Ok (Some (PRecs recs)) /\
+               map observe recs = expected_page p.
+Proof.
+  intros p t base H C. exists (page_model p). split; [apply parseWALPage_enc; exact H|].
+  unfold page_model, expected_page. apply (page_observe_from _ _ _ 24); [|exact C].
+  unfold wf_page, wf_page_gen in H. intuition.
+Qed.
+Print Assumptions C17_page_full_partial.
+
+(* D55: with "every record whose header STARTS on the page" (wf_page_weak: only 8 bytes of the header
+   need to be on the page) the statement is false. *)
+Theorem C17_straddle_refuted :
+  exists p, wf_page_weak p /\ kf_straddle p = true /\
+            exists l, parseWALPage (exact (enc_page p)) 0 = Ok (Some (PRecs l)) /\
+                      map header_of l <> map header_of (expected_page p).
+Proof. exact straddle_refuted. Qed.
+Print Assumptions C17_straddle_refuted.
+
+(* ------------------------------------------------------------------ segments *)
+(* A segment file = any non-empty sequence of pages (WAL pages as above, or 8192 bytes that do not begin
+   with an XLOG page magic, which contribute nothing) followed by fewer than 8192 stray bytes: the
+   records of the pages, concatenated in page order. *)
+Theorem C17_segment : forall its trailing t,
+  Forall (wf_item 24) its -> its <> [] -> blen trailing < 8192 ->
+  exists recs, ParseWALFile {| vis := enc_segment its trailing; tail := t |} = Ok (Some (FRecs recs)) /\
+               map header_of recs = map header_of (expected_segment its) /\
+               (Forall item_clean its -> map observe recs = expected_segment its).
+Proof.
+  intros its tr t H Hne Htr. exists (segment_model its). split; [apply ParseWALFile_enc; auto|]. split.
+  - apply segment_headers.
+  - intros C. apply segment_observe; auto.
+Qed.
+Print Assumptions C17_segment.
+
+(* ------------------------------------------------------------------ block references *)
+Theorem C17_blockrefs_partial : forall r t,
+  wf_body r -> kf_blockrefs r = false ->
+  parseBlockRefs {| vis := enc_body r; tail := t |} = Ok (Some (map expected_block (x_blocks r))).
+Proof.
+  intros r t B K. rewrite parseBlockRefs_total. cbn [vis].
+  assert (E : x_blocks r = []) by (unfold kf_blockrefs in K; destruct (x_blocks r); [reflexivity|discriminate]).
+  rewrite blocks_of_noblocks by auto. rewrite E. reflexivity.
+Qed.
+Print Assumptions C17_blockrefs_partial.
+Theorem C17_blockrefs_refuted :
+  exists r, wf_rec r /\ wf_body r /\ kf_blockrefs r = true /\
+            parseBlockRefs (exact (enc_body r)) <> Ok (Some (map expected_block (x_blocks r))).
+Proof. exact blockrefs_refuted. Qed.
+Print Assumptions C17_blockrefs_refuted.
+
+(* ------------------------------------------------------------------ names *)
+(* Exhaustively over all 256 resource-manager ids and all 65 536 (rmid, info) pairs (vm_compute):
    wherever PostgreSQL assigns a name, the tool prints exactly that name, EXCEPT on the hand-written
    classes kf_rmgr_name / kf_op_name (D54) ... *)
 Theorem C17_names_partial : forall rmid info,
@@ -12,12 +94,25 @@ Theorem C17_names_partial : forall rmid info,
   (forall n, kf_op_name rmid info = false -> pg_op_name rmid info = Some n -> operationName rmid info = n).
 Proof. intros; split; intros; [eapply rmgr_names_partial|eapply op_names_partial]; eauto. Qed.
 Print Assumptions C17_names_partial.
-
-(* ... and on every point of those classes PostgreSQL assigns a name and the tool prints another one:
-   the classes are exact. *)
+(* ... and on every point of those classes PostgreSQL assigns a name and the tool prints another one. *)
 Theorem C17_names_refuted : forall rmid info,
   0 <= rmid < 256 -> 0 <= info < 256 ->
   (kf_rmgr_name rmid = true -> exists n, pg_rmgr_name rmid = Some n /\ rmgrName rmid <> n) /\
   (kf_op_name rmid info = true -> exists n, pg_op_name rmid info = Some n /\ operationName rmid info <> n).
 Proof. intros; split; intros; [eapply rmgr_names_class|eapply op_names_class]; eauto. Qed.
 Print Assumptions C17_names_refuted.
+
+(* ------------------------------------------------------------------ no panic, fuel suffices: ALL byte strings *)
+Theorem C17_no_panic : forall s,
+  (exists l, parseBlockRefs s = Ok (Some l)) /\
+  (forall lsn, exists r, parseXLogRecord s lsn = Ok (Some r)) /\
+  (forall base, exists r, parseWALPage s base = Ok (Some r)) /\
+  (exists r, ParseWALFile s = Ok (Some r)).
+Proof.
+  intros s. split; [|split; [|split]].
+  - rewrite parseBlockRefs_total. eauto.
+  - intros lsn. destruct (parseXLogRecord_total s lsn) as (rc & c & H & _). eauto.
+  - intros base. apply parseWALPage_total.
+  - apply ParseWALFile_total.
+Qed.
+Print Assumptions C17_no_panic.
